@@ -815,6 +815,25 @@ impl Connection {
     pub fn verif_fingerprint(&self) -> String {
         format!("{:?} send={:?}", self.state, self.send)
     }
+    /// Verification hook: (state name, unacknowledged chunks, queued chunks,
+    /// resend request pending).
+    pub fn verif_summary(&self) -> (&'static str, usize, usize, bool) {
+        let name = match self.state {
+            State::Unconnected => "Unconnected",
+            State::Connecting => "Connecting",
+            State::Pending(_) => "Pending",
+            State::Disconnected => "Disconnected",
+            State::Online(ref online) => {
+                return (
+                    "Online",
+                    online.resend_queue.len(),
+                    online.packet.num_chunks as usize,
+                    online.request_resend,
+                )
+            }
+        };
+        (name, 0, 0, false)
+    }
 }
 
 #[cfg(test)]
